@@ -521,7 +521,7 @@ def core_canon(mods, maxpay, nkeys=1):
     def evs(ms):
         out = []
         for x in ms:
-            out.append("%d/%s/%s/%d/%s" % (x["p"], x["from"], x["topic"], 1 if x["sys"] else 0, x["ud"]))
+            out.append("%d/%s/%s/%d/%s%s" % (x["p"], x["from"], x["topic"], 1 if x["sys"] else 0, x["ud"], "'" if x.get("uv") else ""))
         return ";".join(out) if out else "_"
 
     def setof(v):
@@ -723,6 +723,7 @@ CORE_CFGS = {
     "bc2": (["A", "B"], {"VP_CAP": "2", "VP_CTXPERSIST": "1", "VP_SETUP": "loop2", "VP_MAXPAY": "3"}),
     "batch": (["A", "B"], {"VP_CAP": "3", "VP_CTXPERSIST": "1", "VP_SETUP": "loop2", "VP_MAXPAY": "2"}),
     "stash": (["A", "B"], {"VP_CAP": "2", "VP_CTXPERSIST": "1", "VP_SETUP": "loop2", "VP_MAXPAY": "2"}),
+    "stashu": (["A", "B"], {"VP_CAP": "2", "VP_CTXPERSIST": "1", "VP_SETUP": "loop2", "VP_MAXPAY": "2"}),
     "kev": (["A", "B"], {"VP_CAP": "2", "VP_CTXPERSIST": "1", "VP_SETUP": "loop2", "VP_NKEYS": "1"}),
     "kevl": (["A", "B"], {"VP_CAP": "2", "VP_CTXPERSIST": "1", "VP_SETUP": "loop2", "VP_NKEYS": "1"}),
     "tskq": (["A", "B"], {"VP_CAP": "2", "VP_CTXPERSIST": "1", "VP_SETUP": "loop2", "VP_NKEYS": "1", "VP_TASKS": "1", "VP_POOLSZ": "1"}),
@@ -829,7 +830,7 @@ def c13(prop, tier, seed):
 
 @check("C16")
 def c16(prop, tier, seed):
-    return core_check(prop, tier, seed, ["stash", "stashb"], ["stash", "stashb", "become"],
+    return core_check(prop, tier, seed, ["stash", "stashu", "stashb"], ["stash", "stashu", "stashb", "become"],
                       "Focus: stash inside handlers, unstash(n) for n = 1, 2, SIZE_MAX from top level and handlers, stop discards.", Dq=7, Dt=9)
 
 
